@@ -101,7 +101,7 @@ impl AOracle for Oracle {
         let base = &w.groups[0];
         let t = base.threshold;
         let mut seen: BTreeMap<Vec<u8>, u32> = BTreeMap::new();
-        for tt in [t, t.swap_bytes(), t << 8, t << 16, t << 24, t | 0x100, t | 0x1_0000, t | 0x8000_0000, !t, t.wrapping_add(1)] {
+        for tt in [t, t.swap_bytes(), t << 8, t << 16, t << 24, t | 0x100, t | 0x1_0000, t | 0x8000_0000, !t, t.wrapping_add(1), 0, 1, 2, 255, 256, u32::MAX] {
             let mg = MessageGenerator::new(SingleMeasurement::new(&base.measurement), tt, &base.epoch);
             let mut rnd = [0u8; 32];
             mg.sample_local_randomness(&mut rnd);
